@@ -743,6 +743,45 @@ theorem caddyfile_bad_weights_rejected (dur : Bytes → Option Int) (l fuel : Na
     | nil => rfl
     | cons a rest => simp [h]
 
+/-! ### the `reverse_proxy` directive: `lb_policy` once, `lb_retries`, the passive limits -/
+
+/-- a second `lb_policy` in the same `reverse_proxy` block is an error ("already specified") — the
+    policy in force is never silently replaced -/
+theorem caddyfile_second_lb_policy_rejected (dur : Bytes → Option Int) (addr : Bytes → Option (List Bytes))
+    (d : Disp) (st : RpCfg) (hv : d.val = str "lb_policy") (hp : st.pol.isSome = true) :
+    rpStep dur addr d st = none := by
+  have h1 : str "lb_policy" ≠ str "to" := by decide
+  unfold rpStep
+  simp only [hv, h1, if_false, if_true, hp]
+  split <;> rfl
+
+/-- `lb_retries <n>` sets the retry count read by `tryAgain`, and nothing else -/
+theorem caddyfile_lb_retries (dur : Bytes → Option Int) (addr : Bytes → Option (List Bytes))
+    (d : Disp) (st : RpCfg) (v : Int) (hv : d.val = str "lb_retries") (ha : d.nextArg.1 = true)
+    (hn : C16.atoi d.nextArg.2.val = some v) :
+    rpStep dur addr d st = some (d.nextArg.2, { st with retries := v }) := by
+  have h1 : str "lb_retries" ≠ str "to" := by decide
+  have h2 : str "lb_retries" ≠ str "lb_policy" := by decide
+  unfold rpStep
+  simp only [hv, h1, h2, if_false, if_true, ha, hn]
+
+/-- `unhealthy_request_count <n>` becomes `Passive.UnhealthyRequestCount` — the request limit of
+    every upstream without a `max_requests` of its own (`own_max_requests_overrides_unhealthy_request_count`) —
+    and allocates the passive health checks; nothing else changes -/
+theorem caddyfile_unhealthy_request_count (dur : Bytes → Option Int) (addr : Bytes → Option (List Bytes))
+    (d : Disp) (st : RpCfg) (v : Int) (hv : d.val = str "unhealthy_request_count") (ha : d.nextArg.1 = true)
+    (hn : C16.atoi d.nextArg.2.val = some v) :
+    rpStep dur addr d st = some (d.nextArg.2, { st with passive := true, urc := v }) := by
+  have h1 : str "unhealthy_request_count" ≠ str "to" := by decide
+  have h2 : str "unhealthy_request_count" ≠ str "lb_policy" := by decide
+  have h3 : str "unhealthy_request_count" ≠ str "lb_retries" := by decide
+  have h4 : str "unhealthy_request_count" ≠ str "lb_try_duration" := by decide
+  have h5 : str "unhealthy_request_count" ≠ str "lb_try_interval" := by decide
+  have h6 : str "unhealthy_request_count" ≠ str "max_fails" := by decide
+  have h7 : str "unhealthy_request_count" ≠ str "fail_duration" := by decide
+  unfold rpStep
+  simp only [hv, h1, h2, h3, h4, h5, h6, h7, if_false, if_true, ha, hn]
+
 /-! ## the draw list: random and least_conn use at most one draw per upstream -/
 
 /-- the model never runs out of draws when given one draw per upstream -/
@@ -935,5 +974,20 @@ example : (prun { exCfg with cb := true, dyn := true } (pinit .first { exCfg wit
          .req [some 0, some 0, some 0] (.status 502)] ∧
     (prun { exCfg with cb := true } (pinit .first { exCfg with cb := true } []) [.trip, .arrive true true, .untrip, .arrive true true]).1
       = [.done, .req [none, none, none] (.status 503), .done, .req [some 0] (.sent 1)] := by decide
+
+-- the reverse_proxy directive: upstream arguments and `to` (a port range expands), lb_policy with a fallback chain,
+-- lb_retries, the passive options; a second lb_policy and an unknown subdirective are errors
+def exAddr : Bytes → Option (List Bytes) := fun t =>
+  if t = str "a:80" then some [str "a:80"] else if t = str "b:81-82" then some [str "b:81", str "b:82"] else none
+example : parseReverseProxy exDur exAddr
+    [⟨str "reverse_proxy", 1⟩, ⟨str "a:80", 1⟩, ⟨lbrace, 1⟩, ⟨str "to", 2⟩, ⟨str "b:81-82", 2⟩,
+     ⟨str "lb_policy", 3⟩, ⟨str "header", 3⟩, ⟨str "X-Key", 3⟩, ⟨lbrace, 3⟩, ⟨str "fallback", 4⟩, ⟨str "first", 4⟩, ⟨rbrace, 5⟩,
+     ⟨str "lb_retries", 6⟩, ⟨str "3", 6⟩, ⟨str "unhealthy_request_count", 7⟩, ⟨str "20", 7⟩, ⟨str "fail_duration", 8⟩, ⟨str "30s", 8⟩,
+     ⟨rbrace, 9⟩]
+    = some ⟨[str "a:80", str "b:81", str "b:82"], some [.header (str "X-Key"), .simple 3], 3, 0, 0, true, 0, 30000000000, 20⟩ ∧
+  parseReverseProxy exDur exAddr [⟨str "reverse_proxy", 1⟩, ⟨lbrace, 1⟩, ⟨str "lb_policy", 2⟩, ⟨str "first", 2⟩,
+     ⟨str "lb_policy", 3⟩, ⟨str "random", 3⟩, ⟨rbrace, 4⟩] = none ∧
+  parseReverseProxy exDur exAddr [⟨str "reverse_proxy", 1⟩, ⟨lbrace, 1⟩, ⟨str "lb_retries", 2⟩, ⟨str "3", 2⟩, ⟨str "junk", 2⟩, ⟨rbrace, 3⟩] = none ∧
+  parseReverseProxy exDur exAddr [⟨str "reverse_proxy", 1⟩, ⟨str "nope", 1⟩] = none := by decide
 
 end CaddyModel.C08
